@@ -78,6 +78,7 @@ class Abs:
 
     def __init__(self, env=None, types=None, summaries=None, self_obj=None, getters=None, budget=20000, eq=None):
         self.eq = eq          # optional fn(a, b) -> bool | None for user-defined __eq__ of Obj values
+        self.class_methods = set()   # names that exist as methods/properties of self's real class: unsummarised use = Undecided
         self.env = dict(env or {})
         self.types = types or {}
         self.summaries = summaries or {}
@@ -116,6 +117,9 @@ class Abs:
             return {self._key(self.ev(k)): self.ev(v) for k, v in zip(e.keys, e.values)}
         if isinstance(e, ast.Attribute):
             dn = dotted(e)
+            if dn in ("np.pi", "numpy.pi", "math.pi"):
+                from .algebra import sym as _sym
+                return _sym("pi")
             if dn in self.summaries or dn in self.types:
                 return ("callable", dn)
             base = self.ev(e.value)
@@ -321,6 +325,8 @@ class Abs:
             if isinstance(op, ast.Pow):
                 return a ** b
         except TypeError:
+            if getattr(a, "_abs_native", False) or getattr(b, "_abs_native", False) or type(a).__name__ == "Rat" or type(b).__name__ == "Rat":
+                raise Undecided("operator %s between %s and %s is not modelled" % (type(op).__name__, type(a).__name__, type(b).__name__))
             raise Raised("TypeError")
         raise Undecided("binary operator %s" % type(op).__name__)
 
@@ -338,6 +344,8 @@ class Abs:
                 return ("bound", m, base)
             if base.attrs.get("__open__"):
                 return ("method", attr)      # any other attribute of an open object is an opaque bound method
+            if base is self.self_obj and attr in self.class_methods:
+                raise Undecided("no summary for %s.%s" % (base.cls, attr))
             raise Raised("AttributeError(%s.%s)" % (base.cls, attr))
         if isinstance(base, dict) and attr in ("items", "keys", "values", "get", "update", "copy"):
             return ("dictm", attr, base)
@@ -515,6 +523,7 @@ class Abs:
             if tag == "lambda":
                 lam, env = f[1], f[2]
                 sub = Abs(env, self.types, self.summaries, self.self_obj, self.getters, self.budget, self.eq)
+                sub.class_methods = self.class_methods
                 for p, a in zip(lam.args.args, args):
                     sub.env[p.arg] = a
                 return sub.ev(lam.body)
